@@ -112,6 +112,12 @@ def run_pairs(ctx, L, icu, idx, npairs):
             ctx.count('srclen_cases')
 
 
+COMPAT_LOOKALIKES = {ord('a'): '\uff41', ord('b'): '\uff42', ord('c'): '\u217d', ord('x'): '\u02e3', ord('y'): '\u02b8', ord('z'): '\uff5a',
+                     ord('A'): '\uff21', ord('B'): '\u212c', ord('C'): '\u2102', ord('X'): '\u2169', ord('Z'): '\u2124',
+                     0x1c6: 'd\u017e', 0x3a9: '\u2126', 0xc5: '\u212b', 0x3c3: '\u03f2'}
+COMPAT_TAILS = [('\ufb01', 'fi'), ('\u00b2', '2'), ('\u2460', '1'), ('\u00b5', '\u03bc'), ('\uff76', '\u30ab'), ('\u1e9b', '\u1e61'), ('\u0132', 'IJ')]
+
+
 def spelling_pool(ctx, rng, icu):
     """a logical name plus spellings that may or may not be equivalent to it"""
     mk = ctx._marks
@@ -123,6 +129,13 @@ def spelling_pool(ctx, rng, icu):
     variants = {stem, stem.upper(), stem.lower(), stem.title(), icu.nfd(stem), icu.nfc(stem), icu.nfd(stem.upper()),
                 stem.swapcase(), stem + 'x', 'x' + stem, stem.replace('a', 'á') if 'a' in stem else stem + '́',
                 icu.nfd(stem)[::-1] if len(stem) < 3 else stem[:-1]}
+    # compatibility look-alikes: equivalent only under NFKC / NFKD, which nothing in CIF uses (two of the replacements,
+    # U+2126 and U+212B, are canonical singletons and do match) - the oracle decides, as for every other pair
+    variants.add(stem.translate(COMPAT_LOOKALIKES))
+    variants.add(stem.upper().translate(COMPAT_LOOKALIKES))
+    tail = rng.choice(COMPAT_TAILS)
+    variants.add(stem + tail[0])
+    variants.add(stem + tail[1])
     return stem, [v for v in variants if v]
 
 
